@@ -107,6 +107,33 @@ fn run(case: &HashMap<String, String>) -> String {
                 _ => "{\"outcome\":\"unknown-type\"}".to_string(),
             }
         }
+        "packet_frame" => {
+            let wp: usize = case["walker_pos"].parse().unwrap();
+            let mut fails: Vec<&str> = Vec::new();
+            match Packet::parse(&bytes) {
+                Ok(p) => {
+                    if bytes.len() < wp + 15 {
+                        fails.push("overrun");
+                    } else if p.answers.len() != 2 {
+                        fails.push("count");
+                    } else {
+                        let r2 = &p.answers[1];
+                        let addr = u32::from_be_bytes([bytes[wp + 11], bytes[wp + 12], bytes[wp + 13], bytes[wp + 14]]);
+                        let ttl = u32::from_be_bytes([bytes[wp + 5], bytes[wp + 6], bytes[wp + 7], bytes[wp + 8]]);
+                        let ok = match &r2.rdata {
+                            crate::rdata::RData::A(a) => a.address == addr && r2.ttl == ttl
+                                && r2.cache_flush == (bytes[wp + 3] & 0x80 != 0) && r2.name.get_labels().is_empty(),
+                            _ => false,
+                        };
+                        if !ok {
+                            fails.push("next-entry");
+                        }
+                    }
+                    format!("{{\"outcome\":\"ok\",\"fails\":[{}]}}", fails.iter().map(|s| format!("\"{}\"", s)).collect::<Vec<_>>().join(","))
+                }
+                Err(_) => "{\"outcome\":\"err\",\"fails\":[]}".to_string(),
+            }
+        }
         "rr_parse" => {
             let mut pos: usize = case["pos"].parse().unwrap();
             match ResourceRecord::parse(&bytes, &mut pos) {
